@@ -376,6 +376,29 @@ func (e *Engine) installExternals() {
 	x["log.Printf"] = func(fr *frame, a []Value) Value { return nil }
 	x["log.Println"] = func(fr *frame, a []Value) Value { return nil }
 
+	// ---- fmt.Sscan for integer targets (Go's base-prefix rules: a leading 0 means octal)
+	x["fmt.Sscan"] = func(fr *frame, a []Value) Value {
+		args := a[1].([]Value)
+		if len(args) != 1 {
+			panic(engineErr("fmt.Sscan with %d operands not modelled", len(args)))
+		}
+		tgt := args[0].(Iface)
+		pt, ok := tgt.T.Underlying().(*types.Pointer)
+		if !ok {
+			panic(engineErr("fmt.Sscan target %s not modelled", tgt.T))
+		}
+		b := basicOf(pt.Elem())
+		if b == nil || b.Info()&types.IsInteger == 0 || !isSigned(b) {
+			panic(engineErr("fmt.Sscan target %s not modelled", tgt.T))
+		}
+		v, ok2 := e.scanInteger(a[0])
+		if !ok2 {
+			return Tuple{int64(0), e.extError("fmt.scanError")}
+		}
+		e.store(tgt.V.(*Value), v, nil)
+		return Tuple{int64(1), Iface{}}
+	}
+
 	// ---- strconv
 	x["strconv.FormatInt"] = func(fr *frame, a []Value) Value {
 		if b, ok := a[1].(int64); !ok || b != 10 {
